@@ -10,6 +10,7 @@ import Chewing.Proofs.TrieFuzzy
 import Chewing.Proofs.TrieOrder
 import Chewing.Proofs.TrieEntries
 import Chewing.Proofs.TrieConforms
+import Chewing.Proofs.TrieFirstN
 /-!
 # C11 — A trie dictionary file returns exactly what was put in, in the documented order
 
@@ -300,6 +301,84 @@ theorem entries_correct (info : Info) (es : List Entry) (hv : ValidInput info es
     unfold TrieCodec.Builder.find at this
     rw [this]
     simp [inserted]
+
+/-! ## stage D: the other two lookup methods of the `Dictionary` trait -/
+
+/-- the real reader's `lookup_first_n_phrases` on a written file: the leaves of the tree nodes the key
+    reaches are appended, one whole leaf at a time, until more than `first` phrases are held -/
+theorem read_write_first_n (b : TrieCodec.Builder) (hb : b.WF) (hi : ValidInfo b.info) (bytes : Bytes)
+    (hw : b.write = some bytes) :
+    ∃ t, openTrie bytes = some t ∧ ∀ st key n, ValidKey key →
+      lookupFirstN t key n st = cutoff n [] ((tWalk st key [b.root]).map Item.leafPhrases) ∧
+      lookupAll t key st = ((tWalk st key [b.root]).map Item.leafPhrases).flatten := by
+  obtain ⟨recs, data, hbuf, _, hopen, hr, hd⟩ := openTrie_write b hi bytes hw
+  refine ⟨_, hopen, ?_⟩
+  intro st key n hkey
+  have hl := TrieCodec.bfs_layout b hb recs data hbuf hr hd
+  refine ⟨lookupFirstN_eq_cutoff hl (root_pre b hb) ⟨_, _, rfl⟩ st key hkey n, ?_⟩
+  rw [lookupAll_eq_tLookup hl (root_pre b hb) ⟨_, _, rfl⟩ st key hkey, tLookup, List.flatMap_def]
+
+/-- `lookup_first_n_phrases(key, n, strategy)` returns whole leaves: a prefix of
+    `lookup_all_phrases(key, strategy)` that is all of it or holds more than `n` phrases (the trait
+    documents "first N phrases"; `Trie` never cuts inside a leaf and does not truncate) -/
+theorem first_n_whole_leaves (info : Info) (es : List Entry) (hv : ValidInput info es) (bytes : Bytes)
+    (hw : (TrieCodec.Builder.ofEntries info es).write = some bytes) :
+    ∃ t, openTrie bytes = some t ∧ ∀ st k n, ValidKey k →
+      (∃ rest, lookupAll t k st = lookupFirstN t k n st ++ rest) ∧
+      (lookupFirstN t k n st = lookupAll t k st ∨ n < (lookupFirstN t k n st).length) := by
+  have hwf := WF_ofEntries info es hv.2
+  have hi : ValidInfo (TrieCodec.Builder.ofEntries info es).info := by rw [info_ofEntries]; exact hv.1
+  obtain ⟨t, h1, h2⟩ := read_write_first_n _ hwf hi bytes hw
+  refine ⟨t, h1, ?_⟩
+  intro st k n hk
+  obtain ⟨e1, e2⟩ := h2 st k n hk
+  rw [e1, e2]
+  constructor
+  · obtain ⟨rest, h⟩ := cutoff_prefix n ((tWalk st k [_]).map Item.leafPhrases) []
+    exact ⟨rest, by simpa using h⟩
+  · simpa using cutoff_all_or_more n ((tWalk st k [_]).map Item.leafPhrases) []
+
+/-- an exact `lookup_first_n_phrases` returns the whole leaf of the key whatever `n` is (one thread) -/
+theorem first_n_standard (info : Info) (es : List Entry) (hv : ValidInput info es) (bytes : Bytes)
+    (hw : (TrieCodec.Builder.ofEntries info es).write = some bytes) :
+    ∃ t, openTrie bytes = some t ∧
+      ∀ k n, ValidKey k → lookupFirstN t k n .standard = sortLeaf ((inserted es k).getD []) := by
+  have hwf := WF_ofEntries info es hv.2
+  have hi : ValidInfo (TrieCodec.Builder.ofEntries info es).info := by rw [info_ofEntries]; exact hv.1
+  obtain ⟨t, h1, h2⟩ := read_write_first_n _ hwf hi bytes hw
+  obtain ⟨t', h1', h3⟩ := lookup_correct info es hv bytes hw
+  have et : t' = t := Option.some.inj (h1'.symm.trans h1)
+  rw [et] at h3
+  refine ⟨t, h1, ?_⟩
+  intro k n hk
+  obtain ⟨e1, e2⟩ := h2 .standard k n hk
+  rw [← h3 k hk, e1, e2]
+  exact cutoff_le_one n (by
+    rw [List.length_map]
+    exact tWalk_standard_le_one k hk 0 _ _ hwf.2)
+
+/-- `lookup_first_phrase` is the first element of `lookup_all_phrases`, for both strategies; for an
+    exact lookup: the first phrase of the key's leaf in the documented order, `none` for a key never
+    inserted -/
+theorem first_phrase_correct (info : Info) (es : List Entry) (hv : ValidInput info es) (bytes : Bytes)
+    (hw : (TrieCodec.Builder.ofEntries info es).write = some bytes) :
+    ∃ t, openTrie bytes = some t ∧
+      (∀ st k, ValidKey k → lookupFirst t k st = (lookupAll t k st).head?) ∧
+      (∀ k, ValidKey k → lookupFirst t k .standard = (sortLeaf ((inserted es k).getD [])).head?) := by
+  obtain ⟨t, h1, h2⟩ := first_n_whole_leaves info es hv bytes hw
+  obtain ⟨t', h1', h3⟩ := first_n_standard info es hv bytes hw
+  have et : t' = t := Option.some.inj (h1'.symm.trans h1)
+  rw [et] at h3
+  refine ⟨t, h1, ?_, fun k hk => by rw [lookupFirst, h3 k 1 hk]⟩
+  intro st k hk
+  obtain ⟨⟨rest, hp⟩, hor⟩ := h2 st k 1 hk
+  unfold lookupFirst
+  rcases hor with h | h
+  · rw [h]
+  · rw [hp]
+    cases hf : lookupFirstN t k 1 st with
+    | nil => rw [hf] at h; simp at h
+    | cons a as => rfl
 
 /-- `conforms`: the written bytes are a `Document` of trie.asn1 (constants regenerated from the
     file on every run: `format_constants`) whose index is the BFS layout of a tree -/
